@@ -239,6 +239,8 @@ class Wiki:
         if prop not in props:
             return
         limit = int(q.get(prefix + "limit", 500))
+        # a server answers with "no more than" the requested number: its own caps may be lower
+        limit = min(limit, getattr(self, "server_cap", 500) or 500)
         key = prefix + "continue"
         start = 0
         if key in q:
@@ -341,7 +343,13 @@ def install(net):
 
     class DlClient:
         def stream(self, method, url):
-            net.latency()
+            # the image server has its own pace: a download may still be running when the last API answer is in
+            import gevent
+            dl = getattr(net, "download_latency", None)
+            if dl:
+                gevent.sleep(net.rnd.random() * dl)
+            else:
+                net.latency()
             return Resp(net.file_bytes(url))
 
     sapi.MwApi = SynthApi
